@@ -28,6 +28,9 @@ def run(tier):
     rep.add_mc(vlib.must_pass(vlib.tlc("Placement", "MCPlacement", wd, workers=8, timeout=600), "MCPlacement"), "MCPlacement")
     r = vlib.must_violate(vlib.tlc("Placement", "MCPlacementAsBuilt", wd, workers=2), "RouterCoverage", "peer_ids_off_by_one")
     rep.add_mc(r, "MCPlacementAsBuilt (expected violation: RouterCoverage)")
+    # membership as a transition system (join / learn / leave / forget as separate steps)
+    dyn_cfg = "MCPlacementDyn" if thorough else "MCPlacementDynS"
+    rep.add_mc(vlib.must_pass(vlib.tlc("PlacementDyn", dyn_cfg, wd, workers=8, timeout=1500), dyn_cfg), dyn_cfg)
     describe = "placement case rejected: {what}"
     scn, ex = vlib.export_scenarios("SimPlacement", "SimPlacementT" if thorough else "SimPlacement", wd)
     rep.notes["scenarios_exported"] = len(scn)
